@@ -326,7 +326,9 @@ func c03Permits(c *Check) {
 		return sameExpr(call.Args[0], take.Args[1]) && sameExpr(call.Args[1], take.Args[2])
 	}
 	stored := func(pt Pt) bool {
-		return nodeAssigns(pt.Node(), func(l, rhs ast.Expr) bool { return isField(info, l, "Session", "delivery") && rhs != nil && !isNilIdent(info, rhs) })
+		return nodeAssigns(pt.Node(), func(l, rhs ast.Expr) bool {
+			return isField(info, l, "Session", "delivery") && rhs != nil && !isNilIdent(info, rhs)
+		})
 	}
 	found, w, decided := r.OnErr(takes[0], take, true, r.IsNormalExit, orPt(sameArgs, stored))
 	msg := ""
